@@ -92,8 +92,13 @@ def op_file_source(task):
 
 
 def run_cli(args, cwd):
-    p = subprocess.run([sys.executable, "-m", "norminette"] + args, cwd=cwd, capture_output=True, text=True,
-                       timeout=120, env=dict(os.environ))
+    try:
+        p = subprocess.run([sys.executable, "-m", "norminette"] + args, cwd=cwd, capture_output=True, text=True,
+                           timeout=60, env=dict(os.environ))
+    except subprocess.TimeoutExpired:
+        from vp.replay.native import cli_timed_out
+        cli_timed_out(args, cwd, 60)
+        raise
     return p.returncode, p.stdout, p.stderr
 
 
@@ -260,4 +265,5 @@ def main():
 
 
 if __name__ == "__main__":
-    main()
+    from vp.replay.native import guarded_main
+    guarded_main(main)
